@@ -46,6 +46,9 @@ Json gen(sim::Rng& rng, int tier)
         q["cut2_permille"] = static_cast<int>(1 + rng.below(998));
         q["segments"] = static_cast<int>(rng.range(1, 3));
         q["gap_us"] = static_cast<int>(200 + rng.below(3000));
+        // a refused response may also be refused before its last byte: the rest (a few dozen bytes that cannot be taken for the
+        // beginning of a response) arrives a little later, while no request is pending, and well before the next request
+        q["tail"] = rng.chance(0.5);
         reqs.push(q);
     }
     p["requests"] = reqs;
@@ -179,6 +182,13 @@ void run(const Json& plan)
             std::string all = actors::http_response(200, { { "Connection", "keep-alive" } }, body);
             size_t first = 20 + static_cast<size_t>(c1) * (max_resp - 40) / 1000;
             rs.segments = { all.substr(0, first), all.substr(first) };
+            if (q.flag("tail") && all.size() > max_resp + 40) {
+                // second segment: up to a few bytes beyond the limit (the client refuses here); third: the rest, 30+ bytes
+                size_t second_end = max_resp + 8;
+                rs.segments = { all.substr(0, first), all.substr(first, second_end - first), all.substr(second_end) };
+                rs.gap_ns = std::min<i64>(rs.gap_ns, 600 * 1000);
+                rs.kind = "too-long-tail";
+            }
         } else if (rs.kind == "bad-chunk") {
             std::string head = "HTTP/1.1 200 OK\r\nTransfer-Encoding: chunked\r\nConnection: keep-alive\r\n\r\n";
             rs.segments = { head, "zz\r\n" + t + "\r\n0\r\n\r\n" };
